@@ -11,12 +11,14 @@ open Ural.Gen.C19Facebook
 
 /-! ## table obligations (regenerated data of the module) -/
 
-/-- the two patterns the hand-written parts of the model were written for are those of the
-imported modules: `MISTAKES_RE` (`fixMistakes`) and `URL_EXTRACT_RE` (the group arithmetic of
-`extract_url_from_facebook_link`).  The other four regexes of the module are run as
-regenerated terms by the generic matcher: an edit of them changes the model with the code. -/
+/-- the three patterns the hand-written parts of the model were written for are those of the
+imported modules: `MISTAKES_RE` (`fixMistakes`), `SLASH_SQUEEZE_RE` (`squeezeSlashes`) and
+`URL_EXTRACT_RE` (the group arithmetic of `extract_url_from_facebook_link`).  The other four
+regexes of the module are run as regenerated terms by the generic matcher: an edit of them
+changes the model with the code. -/
 theorem patterns_unchanged :
     MISTAKES_RE_pattern = "&amp(?:%3B|;)" ∧ MISTAKES_RE_flags = 34 ∧
+    SLASH_SQUEEZE_RE_pattern = "\\/{2,}" ∧ SLASH_SQUEEZE_RE_flags = 32 ∧
     URL_EXTRACT_RE_pattern = "(?:^|[?&])(u)=([^&]+)" ∧ URL_EXTRACT_RE_flags = 32 := by
   decide
 
@@ -113,7 +115,7 @@ theorem parse_facebook_url_total (url : Str) (rel : Bool) (e : Err) :
     cases safe_urlsplit u with
     | none => exact fun h => nomatch h
     | some sp =>
-      obtain ⟨x, hx⟩ := parseSplit_total sp
+      obtain ⟨x, hx⟩ := parseSplit_total (squeezePath sp)
       simp only [hx]
       exact fun h => nomatch h
 
@@ -131,14 +133,15 @@ theorem has_facebook_comments_total (url : Str) (rel : Bool) (e : Err) :
     | ok r => exact fun h => nomatch h
 
 /-- **`convert_facebook_url_to_mobile` raises only its documented error**, and exactly on the
-urls it documents as foreign: those `urlsplit` refuses and those whose netloc does not contain
-`facebook`. (`result.split("://", 1)[-1]` cannot fail: `split` returns at least one piece.) -/
+urls it documents as foreign: those `urlsplit` refuses and those whose netloc, lower-cased, does
+not contain `facebook`. (`result.split("://", 1)[-1]` cannot fail: `split` returns at least one
+piece.) -/
 theorem convert_only_documented_error (url : Str) :
     (∀ e, convert_facebook_url_to_mobile url = .error e → e = .typeError) ∧
     ((∃ e, convert_facebook_url_to_mobile url = .error e) ↔
       (match urlsplit (ensure_protocol url (lit "http")) with
        | none => True
-       | some sp => contains sp.netloc (lit "facebook") = false)) := by
+       | some sp => contains (lower sp.netloc) (lit "facebook") = false)) := by
   unfold convert_facebook_url_to_mobile
   simp only
   cases hs : urlsplit (ensure_protocol url (lit "http")) with
@@ -149,7 +152,7 @@ theorem convert_only_documented_error (url : Str) :
     · intro _; exact ⟨_, rfl⟩
   | some sp =>
     simp only
-    by_cases hc : contains sp.netloc (lit "facebook") = true
+    by_cases hc : contains (lower sp.netloc) (lit "facebook") = true
     · simp only [hc, Bool.not_true, Bool.false_eq_true, if_false]
       have hne : ∀ s : Str, splitStr1 s (lit "://") ≠ [] := by
         intro s; unfold splitStr1; cases find s (lit "://") <;> simp
@@ -163,7 +166,7 @@ theorem convert_only_documented_error (url : Str) :
         · intro e h; cases h
         · rintro ⟨e, h⟩; cases h
         · intro h; cases h
-    · have hc' : contains sp.netloc (lit "facebook") = false := by simpa using hc
+    · have hc' : contains (lower sp.netloc) (lit "facebook") = false := by simpa using hc
       simp only [hc', Bool.not_false, if_true]
       refine ⟨?_, ?_, ?_⟩
       · intro e h; cases h; rfl
@@ -245,22 +248,29 @@ theorem reparse_url_partial (r : Parsed) (h : reparsable r = true) : Reparses r 
       have := reparse_photo_path _ _ id h.1
       simpa [h.2] using this
     · cases gid <;> cases aid <;>
-        simp only [reparsable, Bool.and_eq_true, Bool.not_eq_true', Bool.false_eq_true] at h
+        simp only [reparsable, Bool.and_eq_true, Bool.false_eq_true] at h
       have := reparse_photo_path _ _ id h.1
       simpa [h.2] using this
     · simp only [reparsable, Bool.false_eq_true] at h
 
+/-- **no record returned by `parse_facebook_url` carries an empty string** (every field is `None`
+or a non-empty `str`): repeated slashes are collapsed before routing, so no path segment is
+empty; `parse_qs` holds no blank value; an empty set id (`set=g.`) is `None`; an empty album
+segment (`/photos/a./…`) is no photo. -/
+theorem parsed_fields_nonempty (url : Str) (rel : Bool) (r : Parsed)
+    (h : parse_facebook_url url rel = .ok (some r)) : noEmpty r = true :=
+  parse_facebook_url_noEmpty url rel r h
+
 /-- **round trip of what the parser returns, proved part**: for every string and both values
 of `allow_relative_urls`, if `parse_facebook_url` returns a record whose fields are made of
-ordinary characters (`fieldsOk`: the fields that go to the path of the canonical url are not
-empty, not `.`/`..`, without `/ ? # ;` and white space; those that go to its query are not
-empty, without `& # + %` TAB CR LF) and which is not one of the two shapes of the known findings
-(`findingShape`: a handle starting with `people`, an album id containing `a.`), then `.url`
-returns a url and parsing that url gives the same record.  That no earlier route of the parser
-takes the canonical url is *derived* from the fact that none took the original one. -/
+ordinary characters (`charsOk`: the fields that go to the path of the canonical url are not
+`.`/`..` and have no `/ ? # ;` nor white space; those that go to its query have no `& # + %` TAB
+CR LF), then `.url` returns a url and parsing that url gives the same record.  Nothing else is
+assumed: that the fields are not empty (`parsed_fields_nonempty`) and that no earlier route of
+the parser takes the canonical url are *derived* from the fact that the parser returned the
+record. -/
 theorem reparse_of_parse_partial (url : Str) (rel : Bool) (r : Parsed)
-    (h : parse_facebook_url url rel = .ok (some r))
-    (hf : fieldsOk r = true) (hn : findingShape r = false) : Reparses r := by
+    (h : parse_facebook_url url rel = .ok (some r)) (hc : charsOk r = true) : Reparses r := by
   have hr : reparsable r = true := by
     rw [parse_facebook_url_eq] at h
     split at h
@@ -268,7 +278,8 @@ theorem reparse_of_parse_partial (url : Str) (rel : Bool) (r : Parsed)
     · split at h
       · cases h
       · rename_i u' _ sp hsp
-        exact parseSplit_reparsable sp r (safe_urlsplit_path_abs _ sp hsp) h hf hn
+        exact parseSplit_reparsable (squeezePath sp) r
+          (squeezePath_abs sp (safe_urlsplit_path_abs _ sp hsp)) (squeezePath_noDbl sp) h hc
   exact reparse_url_partial r hr
 
 instance {α : Type} [DecidableEq α] : DecidableEq (Except Err α) := fun a b =>
@@ -279,16 +290,17 @@ instance {α : Type} [DecidableEq α] : DecidableEq (Except Err α) := fun a b =
   | .error _, .ok _ => isFalse (fun e => nomatch e)
 
 /-- the witness url, the handle it parses to, the url of that handle -/
-def witnessUrl : Str := "https://www.facebook.com//people".toList
-def witnessHandle : Str := "people".toList
-def witnessCanonical : Str := "https://www.facebook.com/people".toList
+def witnessUrl : Str := "https://www.facebook.com/..".toList
+def witnessHandle : Str := "..".toList
+def witnessCanonical : Str := "https://www.facebook.com/".toList
 
-/-- `facebook.com//people` parses to the handle `people`, whose url
-`https://www.facebook.com/people` is taken by the `/people` route and parses to `None` -/
+/-- `facebook.com/..` parses to the handle `..`, whose url is resolved by `urljoin` to
+`https://www.facebook.com/`, which parses to `None` (outside `charsOk`: a dot segment) -/
 theorem witness_facts :
     parse_facebook_url witnessUrl false = .ok (some (.handle witnessHandle)) ∧
     (Parsed.handle witnessHandle).url = .ok (some witnessCanonical) ∧
-    parse_facebook_url witnessCanonical false = .ok none := by decide +kernel
+    parse_facebook_url witnessCanonical false = .ok none ∧
+    charsOk (.handle witnessHandle) = false := by decide +kernel
 
 theorem not_fullReparse_of_witness (u0 c0 : Str) (r0 : Parsed)
     (h1 : parse_facebook_url u0 false = .ok (some r0)) (h2 : r0.url = .ok (some c0))
@@ -303,37 +315,73 @@ theorem not_fullReparse_of_witness (u0 c0 : Str) (r0 : Parsed)
   injection this with this
   exact nomatch this
 
-/-- **the full statement fails on the code as it is** (known finding KF-C19-FB-1, replayed on
-the implementation by the check): see `witness_facts`. -/
+/-- **the full statement, over every string, is false — by design, not by defect**: a field
+that carries a url metacharacter is not rebuilt verbatim by `urljoin` / `parse_qs` (a dot segment
+is resolved, an empty `;params` is dropped, an escaped `&` ends the value).  These are outside
+the quantifier of the property (id-like / handle-like segments) and outside `charsOk`; every
+shape the former known findings KF-C19-FB-1..3 excluded is now inside the proved part
+(`fixed_findings_behave`). -/
 theorem fullReparse_false : ¬ FullReparse :=
   not_fullReparse_of_witness witnessUrl witnessCanonical (.handle witnessHandle)
-    witness_facts.1 witness_facts.2.1 witness_facts.2.2
+    witness_facts.1 witness_facts.2.1 witness_facts.2.2.1
 
-/-- the other excluded shapes fail too (each one is a known finding): an empty path segment
-read as an id, `set=g.` read as an empty group id, an album id that still contains `a.` -/
+/-- the region excluded by `charsOk` really fails: a dot segment, an empty `;params`, an escaped
+`&` and an escaped `+` in a query value — by design of `urljoin` / `parse_qs` —, and a segment that
+ends with a blank (known finding KF-C19-FB-5, replayed on the implementation by the check) -/
 theorem excluded_shapes_fail :
-    parse_facebook_url "https://www.facebook.com/nasa/videos//5".toList false
-      = .ok (some (.video [] (some "nasa".toList))) ∧
-    parse_facebook_url "https://www.facebook.com/nasa/videos/".toList false = .ok none ∧
-    parse_facebook_url "https://www.facebook.com/photo.php?fbid=1&set=g.".toList false
-      = .ok (some (.photo "1".toList (some []) none none none)) ∧
-    parse_facebook_url "https://www.facebook.com/photo.php?fbid=1".toList false
-      = .ok (some (.photo "1".toList none none none none)) ∧
-    parse_facebook_url "https://www.facebook.com/nasa/photos/aa../5".toList false
-      = .ok (some (.photo "5".toList none none (some "nasa".toList) (some "a.".toList))) ∧
-    parse_facebook_url "https://www.facebook.com/nasa/photos/a.a./5".toList false
-      = .ok (some (.photo "5".toList none none (some "nasa".toList) (some []))) ∧
-    -- outside `fieldsOk`: a dot segment, an empty `;params`, an escaped `&` in a query value
     parse_facebook_url "https://www.facebook.com/..".toList false = .ok (some (.handle "..".toList)) ∧
     (Parsed.handle "..".toList).url = .ok (some "https://www.facebook.com/".toList) ∧
     parse_facebook_url "https://www.facebook.com/".toList false = .ok none ∧
+    charsOk (.handle "..".toList) = false ∧
     parse_facebook_url "https://www.facebook.com/a;".toList false = .ok (some (.handle "a;".toList)) ∧
     (Parsed.handle "a;".toList).url = .ok (some "https://www.facebook.com/a".toList) ∧
+    charsOk (.handle "a;".toList) = false ∧
     parse_facebook_url "https://www.facebook.com/watch?v=a%26b".toList false
       = .ok (some (.video "a&b".toList none)) ∧
     (Parsed.video "a&b".toList none).url = .ok (some "https://www.facebook.com/watch/?v=a&b".toList) ∧
     parse_facebook_url "https://www.facebook.com/watch/?v=a&b".toList false
-      = .ok (some (.video "a".toList none)) := by
+      = .ok (some (.video "a".toList none)) ∧
+    charsOk (.video "a&b".toList none) = false ∧
+    parse_facebook_url "https://www.facebook.com/watch?v=a%2Bb".toList false
+      = .ok (some (.video "a+b".toList none)) ∧
+    (Parsed.video "a+b".toList none).url = .ok (some "https://www.facebook.com/watch/?v=a+b".toList) ∧
+    parse_facebook_url "https://www.facebook.com/watch/?v=a+b".toList false
+      = .ok (some (.video "a b".toList none)) ∧
+    charsOk (.video "a+b".toList none) = false ∧
+    parse_facebook_url "https://www.facebook.com/a /b".toList false = .ok (some (.handle "a ".toList)) ∧
+    (Parsed.handle "a ".toList).url = .ok (some "https://www.facebook.com/a ".toList) ∧
+    parse_facebook_url "https://www.facebook.com/a ".toList false = .ok (some (.handle "a".toList)) ∧
+    charsOk (.handle "a ".toList) = false := by
+  decide +kernel
+
+/-- **the inputs of the former known findings KF-C19-FB-1..4 now behave** (fixes fec1df7,
+3eab049, ad3e67d, 7e5e990 of /repo): an empty path segment is neither an id nor a handle and
+does not hide the `/people` route; `set=g.` / `set=a.` give no group / album; only the `a.` prefix
+is removed from an album segment (`aa..`, `a.a.`, `media.123` keep their dots), an empty album is
+no photo; `convert_facebook_url_to_mobile` accepts an upper-case host.  Every record below
+satisfies `charsOk`, hence round-trips by `reparse_of_parse_partial`. -/
+theorem fixed_findings_behave :
+    parse_facebook_url "https://www.facebook.com/nasa/videos//5".toList false
+      = .ok (some (.video "5".toList (some "nasa".toList))) ∧
+    parse_facebook_url "facebook.com/people/a//5".toList false = .ok (some (.user "5".toList none)) ∧
+    parse_facebook_url "https://www.facebook.com//people".toList false = .ok none ∧
+    parse_facebook_url "facebook.com//nasa".toList false = .ok (some (.handle "nasa".toList)) ∧
+    parse_facebook_url "https://www.facebook.com/photo.php?fbid=1&set=g.".toList false
+      = .ok (some (.photo "1".toList none none none none)) ∧
+    parse_facebook_url "https://www.facebook.com/photo.php?fbid=1&set=g.&set=a.".toList false
+      = .ok (some (.photo "1".toList none none none none)) ∧
+    parse_facebook_url "https://www.facebook.com/nasa/photos/aa../5".toList false
+      = .ok (some (.photo "5".toList none none (some "nasa".toList) (some "aa..".toList))) ∧
+    parse_facebook_url "https://www.facebook.com/nasa/photos/a.aa../5".toList false
+      = .ok (some (.photo "5".toList none none (some "nasa".toList) (some "aa..".toList))) ∧
+    parse_facebook_url "https://www.facebook.com/nasa/photos/a.a./5".toList false
+      = .ok (some (.photo "5".toList none none (some "nasa".toList) (some "a.".toList))) ∧
+    parse_facebook_url "https://www.facebook.com/nasa/photos/media.123/5".toList false
+      = .ok (some (.photo "5".toList none none (some "nasa".toList) (some "media.123".toList))) ∧
+    parse_facebook_url "https://www.facebook.com/nasa/photos/a./5".toList false = .ok none ∧
+    charsOk (.photo "5".toList none none (some "nasa".toList) (some "aa..".toList)) = true ∧
+    charsOk (.photo "5".toList none none (some "nasa".toList) (some "a.".toList)) = true ∧
+    convert_facebook_url_to_mobile "HTTP://FACEBOOK.COM/nasa".toList = .ok "http://m.facebook.COM/nasa".toList := by
   decide +kernel
 
 /-! ## non-vacuity -/
@@ -367,16 +415,16 @@ example :
         = .ok (some (.group none (some "nasa".toList))) ∧ reparsable (.group none (some "nasa".toList)) = true) := by
   decide +kernel
 
-/-- the hypotheses of `reparse_of_parse_partial` hold for what the parser returns on ordinary
-urls (a post of a page, a photo of an album, a user), and fail on the finding shapes -/
+/-- the hypothesis of `reparse_of_parse_partial` holds for what the parser returns on ordinary
+urls (a post of a page, a photo of an album, a user, an album id containing `a.`), and fails on a
+dot segment -/
 example :
-    (fieldsOk (.post "1".toList none (some "nasa".toList) none none) = true ∧
-      findingShape (.post "1".toList none (some "nasa".toList) none none) = false) ∧
-    (fieldsOk (.photo "456".toList none none (some "nasa".toList) (some "123".toList)) = true ∧
-      findingShape (.photo "456".toList none none (some "nasa".toList) (some "123".toList)) = false) ∧
-    (fieldsOk (.user "100012345".toList none) = true ∧ findingShape (.user "100012345".toList none) = false) ∧
-    findingShape (.handle "people".toList) = true ∧ fieldsOk (.video [] (some "nasa".toList)) = false ∧
-    findingShape (.photo "5".toList none none (some "nasa".toList) (some "a.".toList)) = true := by
+    charsOk (.post "1".toList none (some "nasa".toList) none none) = true ∧
+    charsOk (.photo "456".toList none none (some "nasa".toList) (some "123".toList)) = true ∧
+    charsOk (.photo "456".toList none none (some "nasa".toList) (some "a.a.".toList)) = true ∧
+    charsOk (.user "100012345".toList none) = true ∧
+    charsOk (.handle "..".toList) = false ∧
+    noEmpty (.video "5".toList (some "nasa".toList)) = true ∧ noEmpty (.video [] (some "nasa".toList)) = false := by
   decide +kernel
 
 /-- the conversion to the mobile site and its documented error -/
@@ -384,6 +432,7 @@ example :
     convert_facebook_url_to_mobile "https://www.facebook.com/nasa?x=1#f".toList
       = .ok "https://m.facebook.com/nasa?x=1#f".toList ∧
     convert_facebook_url_to_mobile "fr-fr.facebook.com/nasa".toList = .ok "m.facebook.com/nasa".toList ∧
+    convert_facebook_url_to_mobile "FR-FR.Facebook.com/nasa".toList = .ok "m.facebook.com/nasa".toList ∧
     convert_facebook_url_to_mobile "https://twitter.com/nasa".toList = .error .typeError ∧
     convert_facebook_url_to_mobile "http://[facebook.com/".toList = .error .typeError := by decide +kernel
 
